@@ -249,7 +249,10 @@ def run(cx):
         ry = root_local_of_arg(b, s, 1)
         lx = lenclass(cx, b, x) or (built_len(cx, b, rx) if rx is not None else None)
         ly = lenclass(cx, b, y) or (built_len(cx, b, ry) if ry is not None else None)
-        if lx is not None and ly is not None:
+        ux, uy = find('(field 0 (call Iterator::unzip $it))', x), find('(field 1 (call Iterator::unzip $it))', y)
+        if ux is not None and uy is not None and ux[1]['it'] == uy[1]['it']:
+            cx.ob('COMUT', f'Series1::new@{k}:lockstep', True, f'{b.name}: abscissae and ordinates are the two halves of one unzip (same length by construction)', where=s)
+        elif lx is not None and ly is not None:
             cx.ob('COMUT', f'Series1::new@{k}:lockstep', lx == ly, f'{b.name}: abscissae and ordinates derive from sequences of the same length', where=s,
                   found=f'x~{lx} y~{ly}')
         elif rx is not None and ry is not None:
